@@ -197,7 +197,7 @@ PROPS = {
                 "end-host forwarder on port 30041; SCMP echo and traceroute requests; packets for another L4 port delivered to the service port, to the end-host port, and addressed to the end-host port itself; "
                 "in 2/3 of the runs the router flips bits in transit (MAC, SPI, algorithm, payload, address header, traffic class, anywhere) in 10..60 % of the packets; "
                 "non-trivial = at least two replies judged at the router; distinct = distinct event-log hash",
-        "required_probes": ["ntp-reply-checked", "authenticated-exchange", "client-verified-response", "scmp-reply-checked", "not-forwarded-from-service-port", "forwarded-from-endhost-port", "not-forwarded-to-endhost-port", "measurement-failed", "served-unauthenticated-while-daemon-down", "mixed-address-families", "crafted-ntp-request", "listeners-started-by-the-service", "requests-delivered-to-the-endhost-port", "nts-with-packet-authentication", "authenticator-of-odd-length", "forwarder-stayed-a-forwarder", "forwarder-started-by-the-service"],
+        "required_probes": ["ntp-reply-checked", "authenticated-exchange", "client-verified-response", "scmp-reply-checked", "not-forwarded-from-service-port", "forwarded-from-endhost-port", "not-forwarded-to-endhost-port", "measurement-failed", "served-unauthenticated-while-daemon-down", "mixed-address-families", "crafted-ntp-request", "listeners-started-by-the-service", "requests-delivered-to-the-endhost-port", "nts-with-packet-authentication", "authenticator-of-odd-length", "forwarder-stayed-a-forwarder", "forwarder-started-by-the-service", "forged-datagram-in-front-of-the-genuine-one"],
         "components": {"real": ["core/server runSCIONServer (NTP, SCMP, forwarding branches); in a third of the authenticated runs started by core/server StartSCIONServer itself (sixteen listeners, their fetchers connected to the mock daemon)", "a quarter of the runs: NTS on top (net/nts, net/ntske provider, runNTSKEServerTLS, the client's fetcher over crypto/tls)", "core/client SCIONClient, MeasureClockOffsetSCION", "net/scion auth.go, Fetcher, DeriveHostHostKey", "scionproto slayers/spao/drkey (library)"],
                        "stub": dict(STUBS_COMMON, **{"SCION daemon": "mock daemon.Connector serving DRKeys derived with the real generic.Deriver", "border routers": "scripted relay that forwards, records and tampers", "kernel UDP": "simnet"}),
                        "not_run": ["one-hop and EPIC paths (empty and SCION paths only)"]},
